@@ -190,8 +190,16 @@ func genC38(r *Rand, n int, tier string, emit func(string)) {
 			if bytes.Equal(oalpha, alpha) {
 				oalpha = append(oalpha, 1)
 			}
-			emit(fmt.Sprintf("vrf x %s %s %s %s %s", hexs(seed), hexs(r.Bytes(32)), hexs(alpha), hexs(oalpha),
-				g8VrfCases[r.Intn(len(g8VrfCases))]))
+			cse := g8VrfCases[r.Intn(len(g8VrfCases))]
+			if r.Chance(1, 4) {
+				// a torsion component in Gamma: crafted by the key holder, or merely added
+				if r.Bool() {
+					cse = fmt.Sprintf("gammaT.%d.%d", 1+r.Intn(7), r.Intn(8))
+				} else {
+					cse = fmt.Sprintf("gammaTbad.%d", 1+r.Intn(7))
+				}
+			}
+			emit(fmt.Sprintf("vrf x %s %s %s %s %s", hexs(seed), hexs(r.Bytes(32)), hexs(alpha), hexs(oalpha), cse))
 			i++
 		}
 		if r.Chance(1, 8) {
